@@ -171,7 +171,7 @@ int main (void)
     }
     G = &a;
     size_t saved_thr = sc_notify_eager_threshold_default;
-    int mem0 = sc_memory_status (-1);
+    int mem0 = (sc_memory_status (-1) + sc_memory_status (sc_package_id));
     simmpi_opts o; simmpi_report rep;
     simmpi_opts_default (&o);
     o.nranks = a.P; o.seed = seed; o.adversary = adv; o.trace_path = want_trace ? tpath : NULL;
@@ -186,7 +186,7 @@ int main (void)
       if (f) { char buf[65536]; size_t k; while ((k = fread (buf, 1, sizeof buf, f)) > 0) fwrite (buf, 1, k, stdout); fclose (f); }
       printf ("TRACE-END\n");
     }
-    printf ("END %d mem=%d\n", run, rc ? 0 : sc_memory_status (-1) - mem0);
+    printf ("END %d mem=%d\n", run, rc ? 0 : (sc_memory_status (-1) + sc_memory_status (sc_package_id)) - mem0);
     simmpi_report_free (&rep);
     for (size_t k = 0; k < nit; ++k) { free (a.items[k].rcv); free (a.items[k].len); }
     free (a.items); free (a.outbuf);
